@@ -116,17 +116,27 @@ thread_local! {
     static LAST_PANIC: RefCell<Option<String>> = RefCell::new(None);
 }
 
+thread_local! {
+    static IN_EXEC: std::cell::Cell<bool> = std::cell::Cell::new(false);
+}
+
+/// true while this OS thread is inside a controlled execution (shuttle's own query panics outside)
 pub fn in_execution() -> bool
 {
-    shuttle::current::get_current_task().is_some()
+    IN_EXEC.with(|c| c.get())
+}
+
+pub fn current_task_id() -> Option<usize>
+{
+    if in_execution() { shuttle::current::get_current_task().map(usize::from) } else { None }
 }
 
 /// Declare the operation the current task performs after its next scheduling point.
 pub fn declare(op: OpDesc)
 {
-    if let Some(t) = shuttle::current::get_current_task()
+    if let Some(t) = current_task_id()
     {
-        PENDING.with(|p| { p.borrow_mut().insert(usize::from(t), op); });
+        PENDING.with(|p| { p.borrow_mut().insert(t, op); });
     }
 }
 
@@ -543,10 +553,13 @@ pub fn run_jobs<D: Driver + 'static>(driver: D) -> D
                 let body = BODY.with(|b| b.borrow_mut().take());
                 if let Some(body) = body
                 {
+                    IN_EXEC.with(|c| c.set(true));
                     body();
+                    IN_EXEC.with(|c| c.set(false));
                 }
             });
         }));
+        IN_EXEC.with(|c| c.set(false));
         match r
         {
             Ok(()) => break,
